@@ -445,28 +445,41 @@ var _ = late(func() {
 					r.undecided("xrand."+n+"|missing", token.NoPos, "anchor not found")
 					continue
 				}
-				var shuffled ssa.Value
-				instrs(fn, func(b *ssa.BasicBlock, i int, in ssa.Instruction) {
-					if call, ok := in.(*ssa.Call); ok {
-						if cal := staticCallee(&call.Call); cal != nil && fname(cal) == "rShuffle" {
-							shuffled = call.Call.Args[len(call.Call.Args)-1]
+				// the tail may live in a shared implementation the sibling returns the result of (rSampleIndexed)
+				var tailOK func(f *ssa.Function, d int) bool
+				tailOK = func(f *ssa.Function, d int) bool {
+					var shuffled ssa.Value
+					instrs(f, func(b *ssa.BasicBlock, i int, in ssa.Instruction) {
+						if call, ok := in.(*ssa.Call); ok {
+							if cal := staticCallee(&call.Call); cal != nil && fname(cal) == "rShuffle" {
+								shuffled = call.Call.Args[len(call.Call.Args)-1]
+							}
 						}
-					}
-				})
-				good := false
-				instrs(fn, func(b *ssa.BasicBlock, i int, in ssa.Instruction) {
-					ret, ok := in.(*ssa.Return)
-					if !ok || b.Comment == "recover" {
-						return
-					}
-					rv := returnedValue(ret, 0)
-					if isNilConst(rv) {
-						return // error return
-					}
-					if shuffled != nil && rv == shuffled {
-						good = true
-					}
-				})
+					})
+					good := false
+					instrs(f, func(b *ssa.BasicBlock, i int, in ssa.Instruction) {
+						ret, ok := in.(*ssa.Return)
+						if !ok || b.Comment == "recover" || len(ret.Results) == 0 {
+							return
+						}
+						rv := returnedValue(ret, 0)
+						if isNilConst(rv) {
+							return // error return
+						}
+						if shuffled != nil && rv == shuffled {
+							good = true
+						}
+						if call, ridx := resultCall(rv); call != nil && ridx == 0 && shuffled == nil && d < 2 {
+							if cal := staticCallee(&call.Call); cal != nil && cal.Blocks != nil && rootFn(cal).Pkg == rootFn(fn).Pkg && cal != f {
+								if tailOK(cal, d+1) {
+									good = true
+								}
+							}
+						}
+					})
+					return good
+				}
+				good := tailOK(fn, 0)
 				r.ok(good, "xrand."+n+"|shuffle-what-is-returned", fn.Pos(), "the sample must be truncated to min(k, n) first and then shuffled; shuffling the untruncated buffer mixes unfilled zero slots into the returned prefix and cuts real items off")
 			}
 		}})
